@@ -3,7 +3,7 @@ Require Extraction.
 Require Import ExtrOcamlBasic.
 From Coq Require Import ZArith List Bool.
 From V Require Import base.Cal gen.ParseTables parse.Lex parse.Prim parse.Ymd parse.Parse parse.Build
-                      parse.ParseSpec parse.ParseSpec2 parse.FuzzyThm.
+                      parse.ParseSpec parse.ParseSpec2 parse.FuzzyThm parse.ZoneThm parse.Local.
 Import ListNotations.
 Open Scope Z_scope.
 
@@ -150,6 +150,7 @@ Definition dec_template (kd df j tf k fl ofm : Z) : template :=
    0  timelex(s)                      [s..] -> [ntok; (len; chars..)..]
    1  parser.parse(s, opts)           [opts..; s..] -> outcome
    2  _parse only: the result record  [opts..; s..] -> [0] | [1; fields..]
+   3  parser.parse with a failing tz.tzlocal (Local.v)
    10.. C15 / C02 spec functions (see ParseSpec.v) *)
 Definition dispatch (n : Z) (args : list Z) : list Z :=
   match n with
@@ -157,6 +158,13 @@ Definition dispatch (n : Z) (args : list Z) : list Z :=
   | 1 => match take_opts args with
          | Some (o, s) => enc_outcome (parse o s)
          | None => [-1] end
+  | 3 => (* parse with the local zone that can fail: [dst_saved; naive_dst; opts..; s..] -> outcome *)
+         match args with
+         | ds :: nd :: r =>
+             match take_opts r with
+             | Some (o, s) => enc_outcome (parse_lz o (mkLocalz ds (z2b nd)) s)
+             | None => [-1] end
+         | _ => [-1] end
   | 2 => match take_opts args with
          | Some (o, s) =>
              match parse_res (o_fuzzy o) (o_fwt o) (oflag (o_yearfirst o) (o_info_yearfirst o))
@@ -193,6 +201,32 @@ Definition dispatch (n : Z) (args : list Z) : list Z :=
               end
           | _ => [-1]
           end
+      | _ => [-1]
+      end
+  | 12 =>
+      (* [raises; opts..; has_name; len; name..; has_off; off; posix_form] *)
+      match args with
+      | rs :: args' =>
+      match take_opts args' with
+      | Some (o, hn :: r) =>
+          match take_str r with
+          | Some (nm, [ho; off; pf]) =>
+              match spec_zone_lz (o_tzinfos o) (o_local o) (o_nm0 o || o_nm1 o) (z2b rs)
+                                 (if z2b hn then Some nm else None) (zopt ho off) (z2b pf) with
+              | ZR z w => [0; b2z w] ++ enc_zone z
+              | ZROverflow => [2]
+              | ZRTypeError => [3; 5]
+              end
+          | _ => [-1]
+          end
+      | _ => [-1]
+      end
+      | _ => [-1]
+      end
+  | 23 =>
+      (* guard of F-C02-tzlocal-range: [dst_saved; naive_dst; y; mo; d; h; mi; s; us] -> [raises] *)
+      match args with
+      | [ds; nd; y; mo; d; h; mi; sc; us] => [b2z (tzlocal_raises (mkLocalz ds (z2b nd)) (mkDt y mo d h mi sc us))]
       | _ => [-1]
       end
   | 20 =>
